@@ -74,6 +74,17 @@ package scen
 //                                     (or dependency) code that did not exist
 //                                     before the instance was built remain.
 //
+//   owned-ds-closed-in-use /          datastores the instance created through a
+//   owned-ds-use-after-close          factory it was given (it owns and closes
+//                                     them): never closed while an operation the
+//                                     instance issued is inside, never used after
+//                                     the instance closed them ("safe while
+//                                     operations are in flight ... without panic";
+//                                     "returns only after all goroutines the
+//                                     instance started have exited"). See
+//                                     c14_ownedds.go; resettable-keystore in
+//                                     factory mode.
+//
 // The overlapping Close is generated for every component except the sweeping
 // provider and its wrappers: their Close is a sync.Once around blocking work,
 // and a second caller blocks on the Once's internal mutex, which synctest
@@ -513,10 +524,25 @@ type c14Flow struct {
 	// beforeCensus closes companions built after the baseline (e.g. the DHT a
 	// provider routes through) so that the census covers them too.
 	beforeCensus func()
+	// check, when set, evaluates scenario-owned rules whose observations are
+	// collected off the simulator goroutine (c14OwnedDS). It runs at the first
+	// quiescent instant after each Close call returned and when run() ends.
+	check func()
 
 	closeFn    func() error
 	closeAt    int
 	interleave int
+	// cancelLast: the drain phases answer the calls whose context is still
+	// live before they let the calls whose context is done observe that (the
+	// default is the other way round). Both orders are legal environments: a
+	// call that is inside the datastore / the network notices a cancellation
+	// whenever it gets to look, possibly after everything else was served.
+	cancelLast bool
+	// closeNow, when set, is asked at every quiescent point of the workload:
+	// true ends the workload at once (Close is issued next), before closeAt
+	// steps were made. Scenarios use it to aim Close at a drawn position in the
+	// life of a long operation instead of at a step count.
+	closeNow func() bool
 	// dts: virtual-time jumps offered during the workload
 	dts []time.Duration
 	// tickQuietOnly: time only moves while no seam call is parked (a jump over
@@ -590,6 +616,11 @@ func (f *c14Flow) checkCloseInstant(overlapOnly bool) {
 	rule, what := "close-early", "Close"
 	if overlapOnly {
 		rule, what = "overlap-close-early", "a second Close, issued while the first had not returned yet,"
+	}
+	if f.check != nil {
+		if f.check(); s.Failed() {
+			return
+		}
 	}
 	alive := map[string]int{}
 	for _, g := range c14Goroutines() {
@@ -775,7 +806,7 @@ func (f *c14Flow) drain(done func() bool) bool {
 				first = p
 			}
 		}
-		if cancelled != nil {
+		if cancelled != nil && !(f.cancelLast && first != nil) {
 			s.ReleaseCancelled(cancelled)
 			continue
 		}
@@ -826,10 +857,19 @@ func (f *c14Flow) parkedKinds() map[string]int {
 // run executes the life cycle. It returns after the census; the scenario then
 // tears down its environment (hosts) and calls s.Finish().
 func (f *c14Flow) run() {
+	if f.check != nil {
+		defer func() {
+			f.s.Quiesce()
+			f.check()
+		}()
+	}
 	s := f.s
 	s.Quiesce()
 	// phase 1: the workload
 	for step := 0; step < f.closeAt; step++ {
+		if f.closeNow != nil && f.closeNow() {
+			break
+		}
 		if !s.Step() {
 			break
 		}
@@ -943,7 +983,7 @@ func (f *c14Flow) run() {
 	for {
 		if !f.drain(f.closeReturned) {
 			if !f.closeOp.Done {
-				s.Violate("close-hang", "%s: Close did not return although every parked call was released (cancellations first) and %v of virtual time passed with nothing parked", f.name, c14B)
+				s.Violate("close-hang", "%s: Close did not return although every parked call was released and %v of virtual time passed with nothing parked", f.name, c14B)
 			} else {
 				s.Violate("second-close-hang", "%s: a second Close, issued while the first had not returned yet, did not return although the first did, every parked call was released and %v of virtual time passed with nothing parked", f.name, c14B)
 			}
